@@ -924,6 +924,8 @@ func lemmaTypedGettersAgreeOnFound(st *SlimTrie, key string) (bool, bool, bool, 
 //@   ensures st.inner.NodeTypeBM == nil ==> !result1
 //@   ensures !result1 ==> result0 == nil
 //@   ensures st.inner.NodeTypeBM != nil && walk(st, key, 0, 0) != -1 ==> result1 && result0 == leafval(st, int32(walk(st, key, 0, 0)))
+//@   ensures st.inner.NodeTypeBM != nil ==> result1 == (walk(st, key, 0, 0) != -1 || sid_l(st, key) != -1)
+//@   ensures st.inner.NodeTypeBM != nil && walk(st, key, 0, 0) == -1 && sid_l(st, key) != -1 ==> result0 == leafval(st, sid_l(st, key))
 //@   defines result1 == rg_found(st, key)
 
 //@ func (*SlimTrie).Search
@@ -932,6 +934,7 @@ func lemmaTypedGettersAgreeOnFound(st *SlimTrie, key string) (bool, bool, bool, 
 //@   ensures st.inner.NodeTypeBM == nil ==> result0 == nil && result1 == nil && result2 == nil
 //@   ensures st.inner.NodeTypeBM != nil && walk(st, key, 0, 0) == -1 ==> result1 == nil
 //@   ensures st.inner.NodeTypeBM != nil && walk(st, key, 0, 0) != -1 ==> result1 == leafval(st, int32(walk(st, key, 0, 0)))
+//@   ensures st.inner.NodeTypeBM != nil ==> result0 == ite(sid_l(st, key) == -1, nil, leafval(st, sid_l(st, key))) && result2 == ite(sid_r(st, key) == -1, nil, leafval(st, sid_r(st, key)))
 
 // C10, agreement clause, for EVERY wf(st) and EVERY query string: GetID and the exact-match id of searchID are the same
 // node (both equal the abstract descent walk); Get reports found exactly when walk finds a leaf; then Search's exact-match
@@ -948,6 +951,16 @@ func lemmaTypedGettersAgreeOnFound(st *SlimTrie, key string) (bool, bool, bool, 
 //@   requires st.inner.NodeTypeBM != nil ==> st.inner.InnerPrefixes != nil && st.inner.InnerPrefixes.PositionBM != nil && st.inner.LeafPrefixes != nil
 //@   ensures result1 == (result2 != -1)
 //@   ensures result1 ==> len(result0) >= 1 && result0[len(result0)-1] == result2
+
+// C03 / C02: RangeGet answers with Search's exact match if there is one, otherwise with Search's left neighbour, and reports
+// not-found exactly when Search has neither (for every wf(st) and every query string).
+//@ func lemmaRangeGetIsSearchEqOrLeft
+//@   property C03 C02 C09 C10
+//@   requires wf_query(st) && len(key) <= 100000000 && (st.inner.NodeTypeBM != nil ==> wf_leaves(st) && st.encoder != nil)
+//@   requires st.inner.NodeTypeBM != nil
+//@   ensures walk(st, key, 0, 0) != -1 ==> result4 && result3 == result1
+//@   ensures walk(st, key, 0, 0) == -1 && sid_l(st, key) != -1 ==> result4 && result3 == result0
+//@   ensures walk(st, key, 0, 0) == -1 && sid_l(st, key) == -1 ==> !result4 && result3 == nil && result0 == nil && result1 == nil
 
 //@ func lemmaGetSearchRangeGetAgree
 //@   property C10 C03
@@ -1075,6 +1088,10 @@ func lemmaTypedGettersAgreeOnFound(st *SlimTrie, key string) (bool, bool, bool, 
 //@   ensures st.inner.LeafPrefixes != nil && qr.hasLeafPrefix && result == 0 ==> len(tail) == len(qr.leafPrefix)
 //@   ensures st.inner.LeafPrefixes != nil && !qr.hasLeafPrefix ==> (result == 0) == (len(tail) == 0)
 
+// sid_l / sid_r: the left / right neighbour leaf ids searchID returns (naming clauses of the deterministic, read-only searchID;
+// its exact-match id is walk)
+//@ spec sid_l(st *SlimTrie, key string) int32
+//@ spec sid_r(st *SlimTrie, key string) int32
 //@ func (*SlimTrie).searchID
 //@   property C02 C03 C09 C10
 //@   opaque wf_iprefix wf_lprefix wf_tree wf_core
@@ -1152,6 +1169,8 @@ func lemmaTypedGettersAgreeOnFound(st *SlimTrie, key string) (bool, bool, bool, 
 //@   before "if eqID != -1 {" assert eqID == -1 || (bitat(NTW(st), eqID) == 0 && 0 <= eqID && int(eqID) < nN(st))
 //@   ensures st.inner.NodeTypeBM == nil ==> result0 == -1 && result1 == -1 && result2 == -1
 //@   ensures st.inner.NodeTypeBM != nil ==> int(result1) == walk(st, key, 0, 0)
+//@   defines result0 == sid_l(st, key)
+//@   defines result2 == sid_r(st, key)
 //@   ensures result0 == -1 || (0 <= result0 && int(result0) < nN(st))
 //@   ensures result1 == -1 || (0 <= result1 && int(result1) < nN(st))
 //@   ensures result2 == -1 || (0 <= result2 && int(result2) < nN(st))
@@ -1219,4 +1238,10 @@ func lemmaSeekAgreesWithGetID(st *SlimTrie, key string) ([]int32, bool, int32) {
 	path, eq := st.getGEPath(key)
 	id := st.GetID(key)
 	return path, eq, id
+}
+
+func lemmaRangeGetIsSearchEqOrLeft(st *SlimTrie, key string) (interface{}, interface{}, interface{}, interface{}, bool) {
+	l, e, r := st.Search(key)
+	v, f := st.RangeGet(key)
+	return l, e, r, v, f
 }
